@@ -982,6 +982,15 @@ impl Sess {
         };
         r.count(&format!("outcome.{outcome}"));
         r.distinct_str(&format!("{kind:?}|{avail_sig}|{uncle_sig}|{outcome}"));
+        if r.samples.len() < 4 && (r.samples.len() as u64) < r.counter("outcome.block") / 40 + r.counter("outcome.missing") / 40 + r.counter("outcome.collided") {
+            // evidence: a few of the judged cases, written out (compact block bytes shortened)
+            let mut c = case(json!({"outcome": outcome}));
+            if let Some(o) = c.as_object_mut() {
+                let cbh = vbase::hex(cb.as_slice());
+                o.insert("compact_block".into(), json!(format!("{}.. ({} bytes)", &cbh[..cbh.len().min(96)], cb.as_slice().len())));
+            }
+            r.sample(c);
+        }
         match res {
             ReconstructionResult::Block(b) => {
                 if something_missing {
